@@ -87,6 +87,7 @@ def run(prog, rep, tier='quick'):
     rep.rule('nesting', 'stores inside the recursion carry no dependence on `order`')
     rep.rule('recurrence', 'rho0 = sum|x|^2/N (signature 1/N, degree 2); rho <- (1-|kp|^2)*rho; kp stored in a[k] and ref[k]')
     rep.rule('guard', 'after the update of rho: rho <= 0 -> raise before the next iteration')
+    rep.rule('integer-data', 'no product / integer power of the raw samples is formed while they may still have an integer dtype')
     rep.rule('scaling', 'a, ref: s=0; rho: s=2 under every criterion')
     f = prog.func('burg', 'arburg')
     from ..idioms import canonicalise
@@ -240,6 +241,21 @@ def run(prog, rep, tier='quick'):
                                   'order: the order-q reflection coefficients are not the first q of the order-p ones [%s]' % ctx, where)
             else:
                 rep.proved('nesting', f.qname, 'stores [%s]' % ctx, 'none depends on the order', where)
+    # integer-typed records: squares / products of the samples must be formed in floating point
+    v, itp = C.run_function(prog, 'burg', 'arburg', [C.data(False, phase=False), IntV(Aff.sym('Po'), frozenset(['order'])), Const(None)], {})
+    ia = [e for e in itp.events if e[0] == 'int-arith' and e[3] == f.qname]
+    if ia:
+        for e in ia[:3]:
+            key = ('int', normalise(e[1]))
+            if key in seen:
+                continue
+            seen.add(key)
+            rep.violation('integer-data', f.qname, normalise(e[1])[:80], 'a %s of the samples is formed in the samples\' own integer dtype: for '
+                          'narrow integer input (int16 PCM data, counts) it wraps around, so the initial variance / error energies are '
+                          'wrong or negative' % e[2], loc(f.mod, e[1]))
+    else:
+        rep.proved('integer-data', f.qname, 'arithmetic on the raw samples', 'no product or integer power of integer-typed samples '
+                   '(conversions to float/complex come first)', where)
     rep.floor('criterion exits', n_exit, 1)
     rep.floor('variance guards', n_guard, 1)
     rep.floor('contexts', n_ctx, 14)
